@@ -21,6 +21,7 @@ class ScenarioProperty:
         post=None,
         stepwise: bool = False,
         machine: dict | None = None,
+        keep_on_crash: bool = False,
     ):
         self.prop = prop
         self.profile = profile
@@ -33,6 +34,7 @@ class ScenarioProperty:
         self.stepwise = stepwise
         # machine: None, or kwargs for machine.make_tree_machine (profile=, roundtrip_checks=, allow_reload=, ...)
         self.machine = machine
+        self.keep_on_crash = keep_on_crash
 
     def n_examples(self, tier: str, nshards: int, scale: float) -> int:
         return max(3, int(self.budget[tier] * scale / nshards))
@@ -78,6 +80,7 @@ class ScenarioProperty:
             stepwise=self.stepwise,
             salt=salt,
             post=self.post,
+            keep_on_crash=self.keep_on_crash,
         )
 
     def replay(self, case, kind=""):
@@ -87,5 +90,5 @@ class ScenarioProperty:
             kw = self.machine or {}
             return replay_machine(case, self.prop, self.make_checkers, kw.get("roundtrip_checks", False), kw.get("crash_is_violation", self.crash_is_violation), {k: v for k, v in self.run_kwargs.items() if k in ("observe_chain", "proxy_engines")})
         return replay_scenario(
-            case, self.make_checkers, self.run_kwargs, self.crash_is_violation, self.prop, stepwise=self.stepwise, post=self.post
+            case, self.make_checkers, self.run_kwargs, self.crash_is_violation, self.prop, stepwise=self.stepwise, post=self.post, keep_on_crash=self.keep_on_crash
         )
